@@ -11,7 +11,12 @@ P = 'C15'
 tr = None
 SCALAR_FUNS = [('one', lambda t: 1), ('id', lambda t: t), ('sq', lambda t: t ** 2), ('sin', lambda t: np.sin(t)), ('cos', lambda t: np.cos(t)), ('gauss', lambda t: np.exp(-t ** 2)),
                # user lambdas whose return TYPE depends on the argument (an int on one branch, a float on the other)
-               ('hinge', lambda t: max(0, t)), ('relu0', lambda t: 0 if t < 0 else t), ('step', lambda t: 1 if t > 0.3 else 0.25 * t)]
+               ('hinge', lambda t: max(0, t)), ('relu0', lambda t: 0 if t < 0 else t), ('step', lambda t: 1 if t > 0.3 else 0.25 * t),
+               # functions of ONE real variable written with reductions (norms, kernel sums, dot products): valid for the scalar arguments
+               # the documented construction passes, but an array argument is reduced to a single number
+               ('radial', lambda t: np.exp(-np.linalg.norm(t - 0.3) ** 2)), ('abs_norm', lambda t: np.linalg.norm(t)), ('dot', lambda t: np.dot(t, t)),
+               ('kernel_sum', lambda t: np.sum(np.exp(-4 * (t - KERNEL_CENTRES) ** 2)) / len(KERNEL_CENTRES)), ('max_part', lambda t: np.max(t * np.array([0.5, -0.25])))]
+KERNEL_CENTRES = np.array([-0.7, -0.2, 0.1, 0.45, 0.9])
 
 
 def point_only_function():
@@ -149,7 +154,7 @@ def w_hocur(ctx, rng, idx):
         x = x * float(10 ** rng.uniform(-7, -3))  # absolute terms (nothing in the statement depends on the scale of the data)
         odd = [lambda i: tr.Identity(i), lambda i: tr.Sin(i, float(rng.uniform(0.5, 2))), lambda i: tr.Monomial(i, int(rng.integers(1, 4)))]
         bl = [[odd[int(rng.integers(0, 3))](int(rng.integers(0, d))) for _ in range(int(rng.integers(1, 4)))] for _ in range(int(rng.integers(2, 4)))]
-    if len(bl) < 2:
+    if len(bl) < 2 and rng.random() < 0.5:  # (a single mode - an order-2 train - is admitted as it is half of the time)
         bl.append([rand_function(rng, d) for _ in range(int(rng.integers(1, 4)))])
     bl = array_capable(rng, bl, d)
     cls = monitors_transform.data_tensor_class(x, bl)
@@ -158,6 +163,22 @@ def w_hocur(ctx, rng, idx):
         return
     rep, mult = int(rng.integers(1, 3)), int(rng.integers(3, 11))
     rk = m + int(rng.integers(0, 3))
+    if idx % 4 == 1:
+        # many snapshots of a trajectory that rests at / returns to its initial state (the leading snapshots repeat), few basis functions,
+        # and exactly the ranks the data tensor has: the surplus candidate columns (`multiplier`) are what makes the result exact
+        m = int(rng.integers(6, 15))
+        x = np.array(gen.data_matrix(rng, (d, m)), dtype=float)
+        q = int(rng.integers(2, 5))
+        x[:, :q] = x[:, [0]] if rng.random() < 0.6 else x[:, [0, 1] * 2][:, :q]
+        cls = monitors_transform.data_tensor_class(x, bl)
+        if cls != 'regular':
+            ctx.skip('hocur_data_tensor_' + cls)
+            return
+        tr_ranks = monitors_transform.true_ranks(x, bl)
+        rk = max(tr_ranks) if rng.random() < 0.5 else [1] + [int(r) for r in tr_ranks] + [1]
+        ctx.describe({'op': 'hocur (repeated leading snapshots, ranks = true ranks)', 'd': d, 'm': m, 'repeated': q, 'modes': [[type(f).__name__ for f in fl] for fl in bl], 'ranks': rk, 'repeats': rep, 'multiplier': mult})
+        call('transform.hocur', tr.hocur, x, bl, rk, prop=P, refusals=(np.linalg.LinAlgError,), refusal_pred=monitors_transform.hocur_gave_up_on_zero_block, repeats=rep, multiplier=mult, progress=False)
+        return
     ctx.describe({'op': 'hocur', 'd': d, 'm': m, 'modes': [[type(f).__name__ for f in fl] for fl in bl], 'ranks': rk, 'repeats': rep, 'multiplier': mult})
     if rng.random() < 0.5:  # the documented list form (one rank per bond), sometimes generous, sometimes per-bond different
         p = len(bl)
